@@ -1,5 +1,5 @@
 /- Line-protocol handler for the multipart/form-data model.
-   `mpart <hex content-type> <chunks> [<hex byte found after every chunk buffer>]` -/
+   `mpart <hex content-type> <chunks> [<hex byte placed after every chunk buffer by the harness; ignored here>]` -/
 import HtpModel.Multipart
 import Driver.Stream
 
@@ -24,17 +24,16 @@ def mpShowResult (r : Result) : String :=
     s!"parts=[{" | ".intercalate (r.parts.map mpShowPart)}] events=[{" ".intercalate (r.events.map mpShowEvent)}]" ++
     (if r.stuck then " STUCK" else "")
 
-def mpartRun (ct chunks : String) (oob : UInt8) : String :=
+def mpartRun (ct chunks : String) : String :=
   match bytesOfHex ct, chunksOfString chunks with
-  | some ct, some cs => mpShowResult (Multipart.run ct cs oob)
+  | some ct, some cs => mpShowResult (Multipart.run ct cs)
   | _, _ => "bad-op"
 
+/-- the optional third token tells the harness what to put behind each chunk buffer (nothing, or one byte);
+    the parse must not depend on it, so the model ignores it -/
 def mpartOp : List String → String
-  | [ct, chunks] => mpartRun ct chunks 0
-  | [ct, chunks, oob] =>
-    match bytesOfHex oob with
-    | some [c] => mpartRun ct chunks c
-    | _ => "bad-op"
+  | [ct, chunks] => mpartRun ct chunks
+  | [ct, chunks, _] => mpartRun ct chunks
   | _ => "bad-op"
 
 end Driver
